@@ -102,6 +102,12 @@ impl SubSpecImpl<BlockHeight> for BlockHeight {
     open spec fn sub_spec(self, rhs: BlockHeight) -> BlockHeight { BlockHeight((self.0 - rhs.0) as u64) }
 }
 impl core::ops::Sub<BlockHeight> for BlockHeight { type Output = BlockHeight; fn sub(self, rhs: BlockHeight) -> (r: BlockHeight) { BlockHeight(self.0 - rhs.0) } }
+impl AddSpecImpl<BlockHeight> for BlockHeight {
+    open spec fn obeys_add_spec() -> bool { true }
+    open spec fn add_req(self, rhs: BlockHeight) -> bool { self.0 + rhs.0 <= u64::MAX }
+    open spec fn add_spec(self, rhs: BlockHeight) -> BlockHeight { BlockHeight((self.0 + rhs.0) as u64) }
+}
+impl core::ops::Add<BlockHeight> for BlockHeight { type Output = BlockHeight; fn add(self, rhs: BlockHeight) -> (r: BlockHeight) { BlockHeight(self.0 + rhs.0) } }
 impl AddAssignSpecImpl<BlockHeight> for BlockHeight {
     open spec fn obeys_add_assign_spec() -> bool { true }
     open spec fn add_assign_req(&self, rhs: BlockHeight) -> bool { self.0 + rhs.0 <= u64::MAX }
